@@ -33,4 +33,4 @@ def replay_parts(pid, payload):
             r = mod.replay(payload)
             if r is not None:
                 return r
-    return 2
+    return None
